@@ -383,7 +383,11 @@ def main(argv=None):
     }
     if infra_error:
         ev["coverage"]["infrastructure_error"] = infra_error
-    with open(os.path.join(VERIF, "evidence", f"{pid}.json"), "w") as fp:
+    # VERIF_EVIDENCE_DIR: used by tools/seed_run.py so that runs against a seeded (mutated) tree never overwrite the evidence
+    # of the real tree
+    ev_dir = os.environ.get("VERIF_EVIDENCE_DIR") or os.path.join(VERIF, "evidence")
+    os.makedirs(ev_dir, exist_ok=True)
+    with open(os.path.join(ev_dir, f"{pid}.json"), "w") as fp:
         fp.write(json.dumps(ev, indent=1, default=str) + "\n")
 
     for l in log[-60:] if (violations or infra_error) else []:
